@@ -27,6 +27,9 @@ impl Names {
   fn class(&self, c: usize) -> String {
     if self.long { format!("LongClassIdentifierNumber{c}") } else { format!("K{c}") }
   }
+  fn iface(&self, c: usize) -> String {
+    if self.long { format!("LongInterfaceIdentifierNumber{c}") } else { format!("I{c}") }
+  }
   fn make(&self) -> &'static str {
     if self.long { "makeANewInstanceOfThisClass" } else { "make" }
   }
@@ -57,6 +60,7 @@ fn gen_text(t: &mut Tape, n: &Names) -> String {
   let mut s = String::new();
   let n_imports = t.choose(4);
   let mut imported: Vec<usize> = vec![];
+  let mut imported_ifaces: Vec<usize> = vec![];
   for _ in 0..n_imports {
     let target = t.choose(6);
     let c1 = t.choose(6);
@@ -68,6 +72,10 @@ fn gen_text(t: &mut Tape, n: &Names) -> String {
         names.push(n.class(c2));
         imported.push(c2);
       }
+    }
+    if t.bool(1, 4) {
+      names.push(n.iface(c1));
+      imported_ifaces.push(c1);
     }
     s.push_str(&format!("import {{ {} }} from {};\n", names.join(", "), n.module(target).join(".")));
   }
@@ -83,7 +91,17 @@ fn gen_text(t: &mut Tape, n: &Names) -> String {
     if t.bool(1, 6) {
       s.push_str("/** documented */\n");
     }
-    s.push_str(&format!("{}class {cls}(val {}: int) {{\n", if private { "private " } else { "" }, n.field()));
+    // an interface other modules implement: its member list decides their diagnostics
+    if t.bool(1, 4) {
+      let sig = match t.weighted(&[4, 2, 2]) {
+        0 => format!("  method {}(): int\n", n.get()),
+        1 => format!("  method {}(): bool\n", n.get()),
+        _ => format!("  method {}(): int\n\n  method extraMemberOfTheInterface(): int\n", n.get()),
+      };
+      s.push_str(&format!("interface {} {{\n{sig}}}\n\n", n.iface(c)));
+    }
+    let implements = if !imported_ifaces.is_empty() && t.bool(1, 2) { format!(" : {}", n.iface(imported_ifaces[t.choose(imported_ifaces.len())])) } else { String::new() };
+    s.push_str(&format!("{}class {cls}(val {}: int){implements} {{\n", if private { "private " } else { "" }, n.field()));
     // doc comments on members: hover in an importing module shows them
     let doc = |t: &mut Tape, s: &mut String| {
       match t.weighted(&[4, 2, 1]) {
@@ -489,7 +507,7 @@ impl Prop for C10 {
     "C10"
   }
   fn rule(&self) -> String {
-    "histories of 1-14 operations (single and multi-module update, creation, no-op update, rename-module onto a fresh or an existing name, remove; also of modules that do not exist) over a pool of six module names, starting from 0-5 initial modules; module contents are generated with 0-4 imports among the pool (self-imports, cycles, missing modules, wrong class names), classes whose member signatures other modules depend on transitively (return types naming imported classes), private classes, injected type errors / unbound names, empty files, comment-only files and unparsable text, short or long (heap-allocated) identifiers; oracle (differential): after every operation the rendered diagnostics (location + message) held for every module name ever mentioned must equal, as sorted lists, those of a fresh ServerState built from the current contents, and the set of modules must be the same; non-trivial = >=3 operations, >=2 modules alive at some point and >=1 diagnostic somewhere during the history; distinct = hash of the history".into()
+    "histories of 1-14 operations (single and multi-module update, creation, no-op update, rename-module onto a fresh or an existing name, remove; also of modules that do not exist) over a pool of six module names, starting from 0-5 initial modules; module contents are generated with 0-4 imports among the pool (self-imports, cycles, missing modules, wrong class names), classes whose member signatures other modules depend on transitively (return types naming imported classes), interfaces implemented by classes of other modules, private classes, injected type errors / unbound names, empty files, comment-only files and unparsable text, short or long (heap-allocated) identifiers; oracle (differential): after every operation the rendered diagnostics (location + message) held for every module name ever mentioned must equal, as sorted lists, those of a fresh ServerState built from the current contents, and the set of modules must be the same; non-trivial = >=3 operations, >=2 modules alive at some point and >=1 diagnostic somewhere during the history; distinct = hash of the history".into()
   }
   fn assumptions(&self) -> Vec<String> {
     vec![
